@@ -840,6 +840,12 @@ def evaluate(t: Any, leaf: Callable[[Any], Any]) -> Any:
         return t[1]
     if k == "enum":
         return t
+    if k in ("ite", "bool", "pure", "call", "attr", "sub"):
+        try:
+            return leaf(t)  # the caller may assign a value to a whole compound term
+        except CannotEval:
+            if k not in ("ite", "bool"):
+                raise
     if k == "tuple":
         return tuple(evaluate(x, leaf) for x in t[1])
     if k == "ite":
@@ -863,13 +869,27 @@ def truth(c: Any, leaf: Callable[[Any], Any]) -> bool:
         return not truth(c[1], leaf)
     if c[0] == "truth":
         return truth(c[1], leaf)
-    if c[0] == "cmp" and c[1] in ("is", "=="):
-        return evaluate(c[2], leaf) == evaluate(c[3], leaf)
-    if c[0] == "cmp" and c[1] == "in" and c[3][0] in ("tuple", "set"):
-        v = evaluate(c[2], leaf)
-        return any(v == evaluate(x, leaf) for x in c[3][1])
+    if c[0] == "cmp":
+        if c[1] in ("is", "=="):
+            return evaluate(c[2], leaf) == evaluate(c[3], leaf)
+        if c[1] == "in" and c[3][0] in ("tuple", "set"):
+            v = evaluate(c[2], leaf)
+            return any(v == evaluate(x, leaf) for x in c[3][1])
+        if c[1] == "<":
+            try:
+                return evaluate(c[2], leaf) < evaluate(c[3], leaf)
+            except TypeError as exc:
+                raise CannotEval() from exc
+        return bool(leaf(c))
     if c[0] == "bool":
-        return bool(evaluate(c, leaf))
+        v = None
+        for x in c[2]:
+            v = truth(x, leaf) if x[0] in ("not", "cmp", "truth", "bool") else evaluate(x, leaf)
+            if c[1] == "or" and v:
+                return True
+            if c[1] == "and" and not v:
+                return False
+        return bool(v)
     return bool(evaluate(c, leaf))
 
 
